@@ -28,7 +28,7 @@ from ..common import (
     subgraph_state,
 )
 from ..engine import EventLog, Outcome, bump, h64, violation
-from .c07 import lay_out
+from ..common import lay_out
 
 PID = "C17"
 RULE = (
